@@ -227,7 +227,7 @@ theorem deliver_run {b0 w W M : Nat} (hW : WOk W) (hw : w ≤ 2^16) (hwW : w ≤
     obtain ⟨s1, hs1, f1, m1, g1⟩ := deliver_step hW hw hwW h l k
     have h1 := sinv_step hW (by omega) h _ hs1
     have p1 := pinv_step hW hw h p _ hs1
-    have l1 := linv_step hW hw h l _ hs1
+    have l1 := linv_step hW hw h p l _ hs1
     obtain ⟨t, ht, h2, p2, l2, f2, m2, g2⟩ := ih h1 p1 l1
     refine ⟨t, ?_, h2, p2, l2, f1.trans f2, fun x c f hg => m2 x c f (m1 x c f hg), ?_⟩
     · show runS s (SOp.deliver k :: ks.map SOp.deliver) = .ok t
